@@ -790,6 +790,21 @@ func (e *executor) exec(line string) (res string) {
 			return "rt ok"
 		}
 		return e.roundTrip(s.p)
+	case "RDP":
+		// RDP <src> <dst>: dst := ReadPacket(WriteTo(src)) — the wire-decoded form of src
+		if len(toks) != 3 || s.tainted {
+			return "bad-op"
+		}
+		var buf bytes.Buffer
+		if _, err := s.p.WriteTo(&buf); err != nil {
+			return "rdp err"
+		}
+		q, err := mq.ReadPacket(&buf)
+		if err != nil || q == nil {
+			return "rdp err"
+		}
+		e.slots[toks[2]] = &slotT{p: q}
+		return "rdp " + viewLine(q)
 	}
 	return "bad-op"
 }
